@@ -34,5 +34,9 @@ def lru_part(c):
         c.samples.append({"kind": "LRU list statistics samples accepted by RetentionTrace.tla", "events": lines[-3:]})
     else:
         e = json.loads(lines[at - 1])
+        if e.get("op") == "GcProbe":
+            c.report_failure("retention: %s keeps removed entries reachable (their keys / values are not collected although nothing else refers to them)"
+                             % ("the LRU cache" if e.get("what") == "lru" else "the ordered map"), {"rejected_at_line": at, "sample": e})
+            return
         c.report_failure("retention: LRU cache list keeps more than live entries (after %s)" % e.get("op"),
                          {"rejected_at_line": at, "sample": e})
